@@ -196,6 +196,9 @@ pub fn check_system(
             bounds[i] = bounds[0];
             continue;
         }
+        if sys.tasks[i].arr.components().is_empty() && policy != Policy::FIFO {
+            continue; // a task that never releases has no job to measure
+        }
         let p = UniProblem::from_system(sys, policy, pre, i, limit);
         rep.count("analyses_run", 1);
         match crate::model::uni::run_lib(&p) {
